@@ -4,25 +4,105 @@
 
 static std::string pj(const Vec2& v) { return "[" + jnum(v.x) + "," + jnum(v.y) + "]"; }
 
-// closed polygon V against a closed exact boundary that starts at V[0]
-static SecOut check_closed(const CaseCtx& cx, const std::string& sub, const JFields& tags, Exact& ex, const Array<Vec2>& pa, int slot) {
-    std::vector<Vec2> before = {pa[0]};
-    std::vector<Vec2> after(pa.items, pa.items + pa.count);
-    after.push_back(pa[0]);
-    // the boundary must start at the first vertex
-    P2 s0 = ex.pieces[0].eval(0);
-    SecOut o;
-    if (!(dist(s0, toP(pa[0])) <= 1e-9L * std::max((LD)1, std::max(fabsl(s0.x), fabsl(s0.y))))) {
+// Closed polygon V against a closed exact outline.  The property fixes neither the vertex the array
+// starts with nor (for ellipse/ring/slice/racetrack) the winding direction, so the judgement is
+// invariant under cyclic rotation of V: every place of the outline where V[0] lies is tried as the
+// start (the outline is re-cut there), optionally also on the reversed outline, and the polygon is
+// accepted if one such description passes all of (2)-(5): every vertex on the outline with
+// non-decreasing parameters, the walk closes after exactly one turn, deviation <= K*tolerance.
+static Piece sub_piece(const Piece& p, LD a, LD b) {
+    Piece q = p;
+    if (p.type == Piece::ARC) { q.th0 = p.th0 + a * (p.th1 - p.th0); q.th1 = p.th0 + b * (p.th1 - p.th0); }
+    else q.ctrl = {p.eval(a), p.eval(b)};   // closed outlines consist of lines and arcs only
+    return q;
+}
+static Exact recut(const Exact& ex, LD g0) {
+    int n = (int)ex.pieces.size();
+    int i = (int)floorl(g0);
+    if (i >= n) i = n - 1;
+    if (i < 0) i = 0;
+    LD u0 = g0 - i;
+    Exact r;
+    if (u0 < 1) r.pieces.push_back(sub_piece(ex.pieces[i], u0, 1));
+    for (int k = 1; k < n; k++) r.pieces.push_back(ex.pieces[(i + k) % n]);
+    if (u0 > 0) r.pieces.push_back(sub_piece(ex.pieces[i], 0, u0));
+    return r;
+}
+static Exact reversed(const Exact& ex) {
+    Exact r;
+    for (int k = (int)ex.pieces.size() - 1; k >= 0; k--) r.pieces.push_back(sub_piece(ex.pieces[k], 1, 0));
+    return r;
+}
+static SecOut check_closed(const CaseCtx& cx, const std::string& sub, const JFields& tags, const Exact& ex0, const std::vector<Vec2>& V, int slot,
+                           bool either_orientation, bool loud = true) {
+    std::vector<Vec2> before = {V[0]};
+    std::vector<Vec2> after(V);
+    after.push_back(V[0]);
+    const bool was_quiet = g_quiet;
+    struct Cand { int orient; LD g0; };
+    std::vector<Cand> cands;
+    Exact base[2];
+    base[0] = ex0;
+    base[0].build();
+    if (either_orientation) { base[1] = reversed(ex0); base[1].build(); }
+    P2 v0 = toP(V[0]);
+    LD closest = 1e300L;
+    for (int o = 0; o < (either_orientation ? 2 : 1); o++) {
+        LD eps = 1e-9L * base[o].scale(), tp = 0, P = base[o].total();
+        for (int it = 0; it < 24 && tp < P; it++) {
+            LD t, dm;
+            bool f = base[o].find_from(v0, tp, eps, t, dm);
+            if (dm < closest) closest = dm;
+            if (!f || t >= P - 1e-12L) break;
+            cands.push_back({o, t});
+            tp = t + 1.0L / base[o].mper;
+        }
+    }
+    SecOut res;
+    auto run = [&](const Cand& c) {
+        Exact ex = recut(base[c.orient], c.g0);
+        P2 endp = ex.pieces.back().eval(1);
+        return check_vertices(cx, sub, tags, ex, endp, before, after.data(), after.size(), slot);
+    };
+    std::vector<Deferred>* const outer = g_defer;
+    std::vector<Deferred> buf, firstbuf;
+    SecOut firstres;
+    int pick = -1;
+    if (!loud) g_quiet = true;
+    for (size_t k = 0; k < cands.size() && pick < 0; k++) {
+        buf.clear();
+        g_defer = &buf;
+        SecOut r = run(cands[k]);
+        g_defer = outer;
+        if (!r.bad) { pick = (int)k; res = r; }
+        else if (k == 0) { firstbuf = buf; firstres = r; }
+    }
+    if (pick < 0 && !cands.empty()) {   // rejected under every description: report the first
+        res = firstres;
+        for (auto& d : firstbuf) emit_violation(d.sub, d.cls, d.tags, d.case_json, d.detail, d.replay, cx.verbose);
+    } else if (pick < 0) {
+        res.bad = true;
         JFields t = tags;
         t.push_back({"tol", jstr(cx.tol_s)});
-        R->violation(sub, "off-curve", t, cx.case_json, fmt("first vertex %s is not the start (%.12Lg, %.12Lg) of the analytic boundary", vstr(pa[0]).c_str(), s0.x, s0.y), cx.replay);
-        if (cx.verbose) fprintf(stderr, "  ** VIOLATION first vertex off the boundary start\n");
-        o.bad = true;
-        return o;
+        emit_violation(sub, "off-curve", t, cx.case_json, fmt("vertex 0 %s is %.3Lg away from the analytic outline", vstr(V[0]).c_str(), closest), cx.replay, cx.verbose);
     }
-    P2 endp = ex.pieces.back().eval(1);
-    return check_vertices(cx, sub, tags, ex, endp, before, after.data(), after.size(), slot);
+    mx_note(slot, res.ratio);
+    if (!res.bad) mx_note(MX_N + slot, res.ratio);
+    if (cx.verbose && !g_quiet) fprintf(stderr, "  closed outline: %zu admissible start(s) for vertex 0, accepted: %s\n", cands.size(), pick >= 0 ? fmt("orientation %s, start parameter %.9Lg", cands[pick].orient ? "reversed" : "as modelled", cands[pick].g0).c_str() : "none");
+    g_quiet = was_quiet;
+    // self-check of the invariance: the same polygon with its vertex array rotated by a third (and,
+    // where the winding is free, reversed) must get the same verdict
+    if (loud && !was_quiet && !outer && V.size() >= 3 && hash128(cx.case_json)[0] % 4 == 0) {   // every 4th case (by case hash)
+        std::vector<Vec2> W(V);
+        std::rotate(W.begin(), W.begin() + W.size() / 3, W.end());
+        if (either_orientation) std::reverse(W.begin(), W.end());
+        SecOut r2 = check_closed(cx, sub, tags, ex0, W, slot, either_orientation, false);
+        R->count("rotation_invariance_checked");
+        if (r2.bad != res.bad) R->internal_error("verdict of a closed primitive changed under rotation/reversal of its vertex array: " + cx.case_json);
+    }
+    return res;
 }
+static std::vector<Vec2> to_vec(const Array<Vec2>& a) { return std::vector<Vec2>(a.items, a.items + a.count); }
 
 // ---------------------------------------------------------------- ellipse family
 struct EllCase { double rx, ry, irx, iry, a0, a1; const char* shape; };
@@ -76,20 +156,22 @@ static void run_ellipse(int64_t idx, int toli, const EllCase& e, bool verbose) {
         structural = true;
     }
     if (!structural) {
-        bool first_full = maybe_full;
-        if (maybe_full && !full) {
-            // |span| = 2pi: the documented region is the full shape; gdstk may build it either as the
-            // full ellipse or as a slice with a degenerate seam.  Accept either description.
-            P2 v0 = toP(p.point_array[0]);
-            bool starts_at_center = dist(v0, toP(center)) < 1e-9L;
-            bool ring = e.irx > 0 && e.iry > 0;
-            P2 out0 = {center.x + (LD)e.rx, (LD)center.y};
-            first_full = ring ? dist(v0, out0) < 1e-9L : !starts_at_center;
+        // |span| = 2pi: the documented region is the full shape; gdstk may build it either as the
+        // full ellipse or as a slice with a degenerate seam.  Accept either description.
+        std::vector<bool> models;
+        if (maybe_full) models.push_back(true);
+        if (!full) models.push_back(false);
+        std::vector<Vec2> V = to_vec(p.point_array);
+        int ok = -1;
+        for (size_t k = 0; models.size() > 1 && k < models.size() && ok < 0; k++) {
+            Exact ex;
+            ellipse_model(e, toP(center), models[k], ex);
+            if (!check_closed(cx, "primitive.ellipse", tags, ex, V, MX_ELLIPSE, true, false).bad) ok = (int)k;
         }
         Exact ex;
-        ellipse_model(e, toP(center), first_full, ex);
-        if (verbose) fprintf(stderr, "ellipse %s: %llu vertices, modelled as %s\n", cx.case_json.c_str(), (unsigned long long)p.point_array.count, first_full ? "full" : "slice");
-        o = check_closed(cx, "primitive.ellipse", tags, ex, p.point_array, MX_ELLIPSE);
+        ellipse_model(e, toP(center), models[ok >= 0 ? ok : 0], ex);
+        if (verbose) fprintf(stderr, "ellipse %s: %llu vertices, modelled as %s\n", cx.case_json.c_str(), (unsigned long long)p.point_array.count, models[ok >= 0 ? ok : 0] ? "full" : "slice");
+        o = check_closed(cx, "primitive.ellipse", tags, ex, V, MX_ELLIPSE, true);
     }
     R->outcome("primitive.ellipse", fmt("%s %s n=%llu bad=%d r=%.1f", e.shape, cx.tol_s.c_str(), (unsigned long long)p.point_array.count, o.bad, o.ratio));
     if (!o.bad && idx % 53 == 3) R->sample("primitive", cx.case_json);
@@ -132,23 +214,71 @@ static void run_racetrack(int64_t idx, int toli, double L, double r, double ri, 
     R->count("cases");
     R->count("cases:racetrack");
     if (cx.tol >= (ri > 0 ? ri : r)) R->count("nontrivial");
-    SecOut o = check_closed(cx, "primitive.racetrack", tags, ex, p.point_array, MX_RACETRACK);
+    SecOut o = check_closed(cx, "primitive.racetrack", tags, ex, to_vec(p.point_array), MX_RACETRACK, true);
     R->outcome("primitive.racetrack", fmt("%s n=%llu bad=%d r=%.1f", cx.tol_s.c_str(), (unsigned long long)p.point_array.count, o.bad, o.ratio));
     p.clear();
 }
 
 // ---------------------------------------------------------------- fillet
-static void run_fillet(int64_t idx, int toli, int shape, const std::vector<double>& radii, const char* rname, bool verbose) {
+// Polygon space: L-shape and 10x10 square, plain and with redundant collinear vertices inserted at
+// every edge position and 3 split ratios (plus two vertices on one edge), every cyclic rotation of
+// the vertex array, both orientations.  A collinear vertex still ends an edge: the documented cap
+// "half the shortest edge adjacent to the corner" is taken over the real adjacent edges.
+struct FilletPoly { std::vector<Vec2> pts; std::string name; bool collinear; int rot; bool cw; };
+static std::vector<FilletPoly> FPOLY;
+static void init_fillet_polys() {
+    if (!FPOLY.empty()) return;
+    struct Base { std::vector<Vec2> pts; std::string name; bool col; };
+    std::vector<Base> bases;
+    std::vector<Vec2> Ls = {{0, 0}, {4, 0}, {4, 2}, {2, 2}, {2, 4}, {0, 4}};
+    std::vector<Vec2> Sq = {{0, 0}, {10, 0}, {10, 10}, {0, 10}};
+    auto with_inserted = [&](const std::vector<Vec2>& P, const char* nm, const std::vector<double>& ratios) {
+        bases.push_back({P, nm, false});
+        for (size_t e = 0; e < P.size(); e++)
+            for (double f : ratios) {
+                std::vector<Vec2> Q;
+                for (size_t i = 0; i < P.size(); i++) {
+                    Q.push_back(P[i]);
+                    if (i == e) { Vec2 a = P[i], b = P[(i + 1) % P.size()]; Q.push_back(Vec2{a.x + f * (b.x - a.x), a.y + f * (b.y - a.y)}); }
+                }
+                bases.push_back({Q, fmt("%s+collinear vertex on edge %zu at %.2f", nm, e, f), true});
+            }
+    };
+    with_inserted(Ls, "L-shape", {0.25, 0.5, 0.75});
+    with_inserted(Sq, "square10", {0.1, 0.5, 0.9});
+    bases.push_back({{{0, 0}, {1, 0}, {9, 0}, {10, 0}, {10, 10}, {0, 10}}, "square10+collinear (1,0),(9,0)", true});
+    bases.push_back({{{0, 0}, {10, 0}, {10, 9}, {10, 10}, {1, 10}, {0, 10}}, "square10+collinear (10,9),(1,10)", true});
+    for (auto& b : bases)
+        for (int cw = 0; cw < 2; cw++)
+            for (size_t r = 0; r < b.pts.size(); r++) {
+                std::vector<Vec2> Q = b.pts;
+                if (cw) std::reverse(Q.begin(), Q.end());
+                std::rotate(Q.begin(), Q.begin() + r, Q.end());
+                FPOLY.push_back({Q, b.name, b.col, (int)r, cw != 0});
+            }
+}
+static void run_fillet(int64_t idx, int toli, const FilletPoly& fp, int radset, bool verbose) {
     CaseCtx cx;
     cx.tol = TOLS[toli];
     cx.tol_s = TOL_S[toli];
     cx.verbose = verbose;
-    std::vector<Vec2> Lp = {{0, 0}, {4, 0}, {4, 2}, {2, 2}, {2, 4}, {0, 4}};
-    if (shape == 1) std::reverse(Lp.begin(), Lp.end());
-    if (shape == 2) std::rotate(Lp.begin(), Lp.begin() + 3, Lp.end());
+    const std::vector<Vec2>& Lp = fp.pts;
+    int nc = (int)Lp.size();
+    static const char* RN[7] = {"0.25", "0.75", "1", "5(too large)", "0.25,1", "0.25,3,0.75", "per-vertex 0.4+0.6j"};
+    std::vector<double> radii;
+    switch (radset) {
+        case 0: radii = {0.25}; break;
+        case 1: radii = {0.75}; break;
+        case 2: radii = {1}; break;
+        case 3: radii = {5}; break;
+        case 4: radii = {0.25, 1}; break;
+        case 5: radii = {0.25, 3, 0.75}; break;
+        default: for (int j = 0; j < nc; j++) radii.push_back(0.4 + 0.6 * j); break;
+    }
+    const char* rname = RN[radset];
     std::vector<std::string> vj;
     for (auto& v : Lp) vj.push_back(pj(v));
-    cx.case_json = jobj({{"primitive", jstr("fillet")}, {"polygon", jarr(vj)}, {"radii", jnums(radii)}, {"tolerance", jnum(cx.tol)}});
+    cx.case_json = jobj({{"primitive", jstr("fillet")}, {"shape", jstr(fp.name)}, {"polygon", jarr(vj)}, {"radii", jnums(radii)}, {"tolerance", jnum(cx.tol)}});
     cx.replay = fmt("sub=fillet idx=%lld", (long long)idx);
     Polygon p = {};
     for (auto& v : Lp) p.point_array.append(v);
@@ -156,110 +286,188 @@ static void run_fillet(int64_t idx, int toli, int shape, const std::vector<doubl
     for (double r : radii) ra.append(r);
     p.fillet(ra, cx.tol);
     ra.clear();
-    int nc = (int)Lp.size();
-    JFields tags = {{"radii", jstr(rname)}, {"orientation", jstr(shape == 1 ? "cw" : "ccw")}};
+    JFields tags = {{"radii", jstr(rname)}, {"orientation", jstr(fp.cw ? "cw" : "ccw")}, {"collinear_vertex", jbool(fp.collinear)}, {"rotation", jint(fp.rot)}};
     R->count("cases");
     R->count("cases:fillet");
-    double rmin = *std::min_element(radii.begin(), radii.end()), rmax = *std::max_element(radii.begin(), radii.end());
-    if (cx.tol >= rmin || rmax > 1) R->count("nontrivial");
     auto viol = [&](const std::string& cls, JFields extra, const std::string& detail) {
         JFields t = tags;
         t.push_back({"tol", jstr(cx.tol_s)});
         for (auto& e : extra) t.push_back(e);
-        R->violation("primitive.fillet", cls, t, cx.case_json, detail, cx.replay);
-        if (verbose) fprintf(stderr, "  ** VIOLATION %s: %s\n", cls.c_str(), detail.c_str());
+        emit_violation("primitive.fillet", cls, t, cx.case_json, detail, cx.replay, verbose);
     };
-    uint64_t n = p.point_array.count;
+    const std::vector<Vec2> OUT = to_vec(p.point_array);
+    if (verbose) { fprintf(stderr, "fillet %s: %zu vertices:", cx.case_json.c_str(), OUT.size()); for (size_t i = 0; i < OUT.size() && i < 40; i++) fprintf(stderr, " %s", vstr(OUT[i]).c_str()); fprintf(stderr, "\n"); }
+    double worst_ratio = -1;
+    bool clamped_any = false;
+    // The judgement does not depend on which output vertex the array starts with: the output is
+    // re-cut at a group boundary (groups = runs of output vertices nearest to the same input vertex).
+    auto judge = [&](const std::vector<Vec2>& O) -> bool {
+    uint64_t n = O.size();
     bool bad = false;
     for (uint64_t i = 0; i < n && !bad; i++)
-        if (!std::isfinite(p.point_array[i].x) || !std::isfinite(p.point_array[i].y)) { viol("nan-vertex", {}, fmt("vertex %llu is non-finite", (unsigned long long)i)); bad = true; }
-    // group the output by nearest original corner: must be corner 0,1,..,nc-1 in order, contiguous
+        if (!std::isfinite(O[i].x) || !std::isfinite(O[i].y)) { viol("nan-vertex", {}, fmt("vertex %llu is non-finite", (unsigned long long)i)); bad = true; }
+    if (bad) return true;
+    std::vector<int> lab(n);
+    for (uint64_t i = 0; i < n; i++) {
+        int best = 0;
+        LD bd = 1e300L;
+        for (int k = 0; k < nc; k++) { LD d = dist(toP(O[i]), toP(Lp[k])); if (d < bd) { bd = d; best = k; } }
+        lab[i] = best;
+    }
+    uint64_t s0 = n;
+    for (uint64_t i = 0; i < n; i++) if (lab[i] != lab[(i + n - 1) % n]) { s0 = i; break; }
+    if (s0 == n) { viol("structure", {}, fmt("all %llu output vertices belong to input vertex %d", (unsigned long long)n, lab[0])); return true; }
+    std::vector<Vec2> W(n);
+    for (uint64_t i = 0; i < n; i++) W[i] = O[(s0 + i) % n];
+    // groups must be input vertex g, g+1, ... (cyclically), each once, contiguous
     std::vector<int> first(nc, -1), cnt(nc, 0);
-    if (!bad) {
-        int cur = -1;
+    {
+        int g0 = lab[s0], cur = -1, ngroups = 0;
         for (uint64_t i = 0; i < n && !bad; i++) {
-            int best = 0;
-            LD bd = 1e300L;
-            for (int k = 0; k < nc; k++) { LD d = dist(toP(p.point_array[i]), toP(Lp[k])); if (d < bd) { bd = d; best = k; } }
-            if (best != cur) {
-                if (best != cur + 1) { viol("structure", {}, fmt("vertex %llu %s belongs to corner %d after corner %d", (unsigned long long)i, vstr(p.point_array[i]).c_str(), best, cur)); bad = true; break; }
+            int best = lab[(s0 + i) % n];
+            if (i == 0 || best != cur) {
+                int want = (g0 + ngroups) % nc;
+                if (best != want || ngroups >= nc) { viol("structure", {}, fmt("output vertex %s belongs to input vertex %d where input vertex %d is due (outline out of order)", vstr(W[i]).c_str(), best, want)); bad = true; break; }
                 cur = best;
                 first[cur] = (int)i;
+                ngroups++;
             }
             cnt[cur]++;
         }
-        if (!bad && cur != nc - 1) { viol("structure", {}, fmt("only %d of %d corners are represented in the %llu output vertices", cur + 1, nc, (unsigned long long)n)); bad = true; }
+        if (!bad && ngroups != nc) { viol("structure", {}, fmt("only %d of %d input vertices are represented in the %llu output vertices", ngroups, nc, (unsigned long long)n)); bad = true; }
     }
-    double worst_ratio = -1;
-    if (!bad) {
-        // measured radii + documented radii
+    if (bad) return true;
         Exact ex;            // boundary with the measured radii: oracle item (4)
-        std::vector<Piece> docarcs;
+        struct Doc { Piece arc; int k; };
+        std::vector<Doc> docarcs;
         std::vector<P2> arc_start(nc), arc_end(nc);
         std::vector<Piece> arcs(nc);
         std::vector<bool> has_arc(nc, false);
         for (int k = 0; k < nc && !bad; k++) {
             P2 p0 = toP(Lp[(k + nc - 1) % nc]), p1 = toP(Lp[k]), p2 = toP(Lp[(k + 1) % nc]);
-            LD len0 = dist(p0, p1), len1 = dist(p1, p2);
+            LD len0 = dist(p0, p1), len1 = dist(p1, p2);     // the real adjacent edges
             P2 v0 = (1 / len0) * (p1 - p0), v1 = (1 / len1) * (p2 - p1);
+            P2 fv = toP(W[first[k]]);
+            LD l = dist(fv, p1);
+            if (fabsl(cross(v0, v1)) <= 1e-12L && dot(v0, v1) > 0) {
+                // straight-through vertex: documented to stay as it is
+                if (cnt[k] != 1 || l > 1e-12L) { viol("structure", {{"corner", jint(k)}}, fmt("collinear input vertex %d %s is represented by %d output vertices starting at %s", k, vstr(Lp[k]).c_str(), cnt[k], vstr(W[first[k]]).c_str())); bad = true; break; }
+                arc_start[k] = arc_end[k] = p1;
+                continue;
+            }
             LD theta = acosl(std::max((LD)-1, std::min((LD)1, dot(v0, v1))));
             LD tant = tanl(theta / 2);
             LD sgn = cross(v0, v1) > 0 ? 1 : -1;
             LD r = radii[k % radii.size()];
-            LD lo = std::min(r, (LD)0.5 * std::min(len0, len1) / tant);       // documented effective radius
-            P2 fv = toP(p.point_array[first[k]]);
-            LD l = dist(fv, p1);
+            LD cap = (LD)0.5 * std::min(len0, len1) / tant;
+            LD lo = std::min(r, cap);       // documented effective radius
+            if (r > cap) clamped_any = true;
             LD reff = (cnt[k] == 1 && l <= 1e-12L) ? 0 : l / tant;
             if (reff > lo * (1 + 1e-9L) + 1e-12L)
-                { viol("fillet-radius", {{"corner", jint(k)}}, fmt("corner %d: tangent point %s gives radius %.12Lg, larger than min(requested %.6Lg, half of the shortest adjacent edge) = %.12Lg", k, vstr(p.point_array[first[k]]).c_str(), reff, r, lo)); bad = true; break; }
-            if (reff > 0 && r <= (LD)0.5 * std::min(len0, len1) / tant - cx.tol && fabsl(reff - r) > 1e-9L)
-                { viol("fillet-radius", {{"corner", jint(k)}}, fmt("corner %d: radius %.12Lg used although the requested %.6Lg fits (half of the shortest adjacent edge is %.6Lg)", k, reff, r, 0.5L * std::min(len0, len1))); bad = true; break; }
+                { viol("fillet-radius", {{"corner", jint(k)}, {"kind", jstr("too-large")}}, fmt("corner %d %s: tangent point %s gives radius %.12Lg, larger than min(requested %.6Lg, half of the shortest adjacent edge %.6Lg) = %.12Lg", k, vstr(Lp[k]).c_str(), vstr(W[first[k]]).c_str(), reff, r, cap, lo)); bad = true; break; }
+            if (reff < lo - (cx.tol / tant) * (1 + 1e-9L) - 1e-12L)
+                { viol("fillet-radius", {{"corner", jint(k)}, {"kind", jstr("too-small")}}, fmt("corner %d %s: radius %.12Lg used, documented min(requested %.6Lg, half of the shortest adjacent edge %.6Lg) = %.12Lg (slack: tolerance)", k, vstr(Lp[k]).c_str(), reff, r, cap, lo)); bad = true; break; }
+            if (reff > 0 && r <= cap - cx.tol && fabsl(reff - r) > 1e-9L)
+                { viol("fillet-radius", {{"corner", jint(k)}, {"kind", jstr("not-requested")}}, fmt("corner %d: radius %.12Lg used although the requested %.6Lg fits (half of the shortest adjacent edge is %.6Lg)", k, reff, r, cap)); bad = true; break; }
             auto mk = [&](LD rad, const char* what) {
                 P2 bis = v1 - v0;
                 bis = (1 / norm(bis)) * bis;
                 P2 cc = p1 + (rad / cosl(theta / 2)) * bis;
                 P2 A = p1 - (rad * tant) * v0;
                 LD aA = atan2l(A.y - cc.y, A.x - cc.x);
-                Piece a = arc_centered(cc, rad, rad, aA, aA + sgn * theta, what);
-                return a;
+                return arc_centered(cc, rad, rad, aA, aA + sgn * theta, what);
             };
             if (reff > 0) { arcs[k] = mk(reff, "fillet-arc"); arcs[k].dev = false; has_arc[k] = true; arc_start[k] = arcs[k].eval(0); arc_end[k] = arcs[k].eval(1); }
             else arc_start[k] = arc_end[k] = p1;
-            if (lo > 0) docarcs.push_back(mk(lo, "documented fillet arc"));
+            if (lo > 0) docarcs.push_back({mk(lo, "documented fillet arc"), k});
         }
         if (!bad) {
             for (int k = 0; k < nc; k++) {
                 if (has_arc[k]) ex.pieces.push_back(arcs[k]);
-                Piece ln = line(arc_end[k], arc_start[(k + 1) % nc], "edge");
-                ex.pieces.push_back(ln);
+                ex.pieces.push_back(line(arc_end[k], arc_start[(k + 1) % nc], "edge"));
             }
-            SecOut o = check_closed(cx, "primitive.fillet", tags, ex, p.point_array, -1);
+            SecOut o = check_closed(cx, "primitive.fillet", tags, ex, W, -1, false);
             bad = o.bad;
         }
         if (!bad) {
-            // (5) documented arcs vs the output polygon (full distance)
+            // (5) documented arcs vs the output polygon: the corner's own vertices and their two
+            // neighbours first, the whole polygon before any verdict
             LD maxd = 0;
             P2 wp = {0, 0};
             int per = std::max(64, 2000 / std::max(1, (int)docarcs.size()));
-            for (auto& a : docarcs)
+            auto V = [&](int64_t i) { return toP(W[(uint64_t)(((i % (int64_t)n) + (int64_t)n) % (int64_t)n)]); };
+            for (auto& da : docarcs)
                 for (int j = 0; j <= per; j++) {
-                    P2 q = a.eval((LD)j / per);
+                    P2 q = da.arc.eval((LD)j / per);
                     LD d = 1e300L;
-                    for (uint64_t i = 0; i < n; i++) d = std::min(d, dist_seg(q, toP(p.point_array[i]), toP(p.point_array[(i + 1) % n])));
+                    for (int64_t i = first[da.k] - 1; i < first[da.k] + cnt[da.k]; i++) d = std::min(d, dist_seg(q, V(i), V(i + 1)));
+                    if (d > K_DEV * cx.tol)
+                        for (uint64_t i = 0; i < n; i++) d = std::min(d, dist_seg(q, V((int64_t)i), V((int64_t)i + 1)));
                     if (d > maxd) { maxd = d; wp = q; }
                 }
             worst_ratio = (double)(maxd / cx.tol);
-            mx_note(MX_FILLET, worst_ratio);
-            R->count("deviation_checked");
             if (maxd > K_DEV * cx.tol) {
-                viol("deviation", {{"ratio", jnum(worst_ratio)}, {"radius_over_tol", jnum((double)(rmax / cx.tol))}},
+                viol("deviation", {{"ratio", jnum(worst_ratio)}},
                      fmt("point (%.9Lg, %.9Lg) of the documented fillet arc is %.6Lg = %.3f x tolerance away from the filleted polygon (%llu vertices; allowed %.1f x)", wp.x, wp.y, maxd, worst_ratio, (unsigned long long)n, K_DEV));
                 bad = true;
-            } else
-                mx_note(MX_N + MX_FILLET, worst_ratio);
+            }
+        }
+        return bad;
+    };
+    // fillet() rounds the polygon in place; neither the start vertex nor the winding of the result is
+    // documented, so the output is also accepted when it runs against the input order
+    std::vector<Vec2> REV(OUT.rbegin(), OUT.rend());
+    bool bad;
+    {
+        const bool was_quiet = g_quiet;
+        std::vector<Deferred>* const outer = g_defer;
+        std::vector<Deferred> b1, b2;
+        g_defer = &b1;
+        bad = judge(OUT);
+        g_defer = outer;
+        if (bad) {
+            double wr = worst_ratio;
+            bool ca = clamped_any;
+            worst_ratio = -1;
+            clamped_any = false;
+            g_defer = &b2;
+            bool badr = judge(REV);
+            g_defer = outer;
+            if (!badr) bad = false;
+            else {
+                worst_ratio = wr;
+                clamped_any = ca;
+                for (auto& d : b1) emit_violation(d.sub, d.cls, d.tags, d.case_json, d.detail, d.replay, verbose);
+            }
+        }
+        if (worst_ratio >= 0) {
+            R->count("deviation_checked");
+            mx_note(MX_FILLET, worst_ratio);
+            if (!bad) mx_note(MX_N + MX_FILLET, worst_ratio);
+        }
+        // self-check of the invariance under rotation + reversal of the output array (every 4th case)
+        if (hash128(cx.case_json)[1] % 4 == 0) {
+        std::vector<Vec2> ROT(OUT);
+        std::rotate(ROT.begin(), ROT.begin() + ROT.size() / 3, ROT.end());
+        std::reverse(ROT.begin(), ROT.end());
+        double wr = worst_ratio;
+        bool ca = clamped_any;
+        g_quiet = true;
+        bool bad2 = judge(ROT);
+        if (bad2) { std::reverse(ROT.begin(), ROT.end()); bad2 = judge(ROT); }
+        g_quiet = was_quiet;
+        worst_ratio = wr;
+        clamped_any = ca;
+        R->count("rotation_invariance_checked");
+        if (bad2 != bad) R->internal_error("fillet verdict changed under rotation/reversal of the output array: " + cx.case_json);
         }
     }
+    uint64_t n = OUT.size();
+    double rmin = *std::min_element(radii.begin(), radii.end());
+    if (cx.tol >= rmin || clamped_any || fp.collinear) R->count("nontrivial");
+    if (fp.collinear && clamped_any) R->count("fillet_collinear_and_clamped");
     R->outcome("primitive.fillet", fmt("%s %s n=%llu bad=%d r=%.1f", rname, cx.tol_s.c_str(), (unsigned long long)n, bad, worst_ratio));
+    if (!bad && idx % 977 == 11) R->sample("primitive", cx.case_json);
     p.clear();
 }
 
@@ -370,16 +578,16 @@ static void register_primitives(bool thorough) {
         SUBS.push_back(s);
     }
     {
+        init_fillet_polys();
         Sub s;
         s.name = "fillet";
-        s.desc = "Polygon::fillet on the L-shape (ccw, cw, rotated start): radii {0.25},{0.75},{1},{5 (too large)},{0.25,1 cycled} x tolerance";
-        s.n = (int64_t)TOLS.size() * 15;
-        s.chunk = 3;
-        s.run = [](int64_t idx, bool v) {
-            static const std::vector<std::vector<double>> RAD = {{0.25}, {0.75}, {1}, {5}, {0.25, 1}};
-            static const char* RN[5] = {"0.25", "0.75", "1", "5(too large)", "0.25,1"};
-            int k = (int)(idx % 15);
-            run_fillet(idx, (int)(idx / 15), k / 5, RAD[k % 5], RN[k % 5], v);
+        s.desc = fmt("Polygon::fillet on %zu vertex arrays (L-shape and 10x10 square, plain and with collinear vertices inserted at every edge position x 3 split ratios, two on one edge; every cyclic rotation; ccw and cw) x 7 radius sets (0.25, 0.75, 1, 5 too large, {0.25,1}, {0.25,3,0.75}, per-vertex) x tolerance", FPOLY.size());
+        int64_t np = (int64_t)FPOLY.size();
+        s.n = (int64_t)TOLS.size() * 7 * np;
+        s.chunk = 40;
+        s.run = [np](int64_t idx, bool v) {
+            int64_t k = idx % (7 * np);
+            run_fillet(idx, (int)(idx / (7 * np)), FPOLY[k / 7], (int)(k % 7), v);
         };
         SUBS.push_back(s);
     }
